@@ -165,6 +165,13 @@ package api
 //@   ensures[bad] ispost(ctx) && !ok ==> respstatus(ctx) == 400
 //@   ensures[type] ok && ty != "totp" && ty != "hotp" ==> respstatus(ctx) == 400
 //@   ensures[ok] ok && (ty == "totp" || ty == "hotp") ==> respstatus(ctx) == 200
+//@   ensures[maps] ok && (ty == "totp" || ty == "hotp") ==> uscheme(jstr(respbody(ctx), "url")) == "otpauth" && uhost(jstr(respbody(ctx), "url")) == ty &&
+//@ |   upath(jstr(respbody(ctx), "url")) == cat("/", jstr(b, "issuer"), ":", jstr(b, "account_name")) &&
+//@ |   qget(uquery(jstr(respbody(ctx), "url")), "secret") == jstr(b, "secret") && qget(uquery(jstr(respbody(ctx), "url")), "issuer") == jstr(b, "issuer") &&
+//@ |   qget(uquery(jstr(respbody(ctx), "url")), "digits") == dec(digitsof(jstr(b, "digits"))) &&
+//@ |   qget(uquery(jstr(respbody(ctx), "url")), "algorithm") == algname(algoof(jstr(b, "algorithm"))) &&
+//@ |   (ty == "totp" ==> qget(uquery(jstr(respbody(ctx), "url")), "period") == dec(jnum(b, "period") == 0 ? 30 : jnum(b, "period"))) &&
+//@ |   (ty == "hotp" ==> qget(uquery(jstr(respbody(ctx), "url")), "counter") == "0")
 //@   ensures[once] respnbody(ctx) == 1
 
 // ---- OCRA ------------------------------------------------------------------------
